@@ -225,6 +225,54 @@ def c18_tables():
     return parts
 
 
+def c03_sites():
+    """C03: every call site of `insert_xpaths` (and of `insert_output_values`, the label-side entry) in the
+    pyxform package, read from the AST of the current source files: (file, Class.function, text argument,
+    context argument, use_current, reference_parent), arguments as source text after binding them to the
+    parameters of the current signature (a flag left out shows the signature's default).  Source order."""
+    pkg = REPO / "pyxform"
+    sigs = {}
+    sv = ast.parse((pkg / "survey.py").read_text())
+    for cls in sv.body:
+        if isinstance(cls, ast.ClassDef) and cls.name == "Survey":
+            for fn in cls.body:
+                if isinstance(fn, ast.FunctionDef) and fn.name in ("insert_xpaths", "insert_output_values", "_var_repl_function"):
+                    params = [a.arg for a in fn.args.args][1:]
+                    defaults = [None] * (len(params) - len(fn.args.defaults)) + [ast.unparse(d) for d in fn.args.defaults]
+                    sigs[fn.name] = list(zip(params, defaults))
+    for need in ("insert_xpaths", "insert_output_values", "_var_repl_function"):
+        if need not in sigs:
+            raise SystemExit(f"translator: Survey.{need} not found")
+    sites = {"insert_xpaths": [], "insert_output_values": [], "_var_repl_function": []}
+
+    def walk(node, scope, rel):
+        for ch in ast.iter_child_nodes(node):
+            sc = scope
+            if isinstance(ch, (ast.ClassDef, ast.FunctionDef, ast.AsyncFunctionDef)):
+                sc = scope + [ch.name]
+            if isinstance(ch, ast.Call) and isinstance(ch.func, ast.Attribute) and ch.func.attr in sites:
+                sig = sigs[ch.func.attr]
+                bound = {n: d for n, d in sig}
+                for (n, _d), a in zip(sig, ch.args):
+                    bound[n] = ast.unparse(a)
+                for kw in ch.keywords:
+                    bound[kw.arg if kw.arg is not None else "**"] = ast.unparse(kw.value)
+                sites[ch.func.attr].append((rel, ".".join(sc), [str(bound.get(n)) for n, _d in sig]))
+            walk(ch, sc, rel)
+
+    for f in sorted(pkg.rglob("*.py")):
+        walk(ast.parse(f.read_text()), [], str(f.relative_to(pkg)))
+    out = []
+    for name, lean in (("insert_xpaths", "insertXpathsSites"), ("insert_output_values", "insertOutputValuesSites"),
+                       ("_var_repl_function", "varReplSites")):
+        out.append(
+            f"/-- C03: the call sites of `{name}` in the pyxform package (file, scope, then one source text per parameter "
+            f"{[n for n, _ in sigs[name]]}; an argument left out shows the default of the signature) -/\n"
+            f"def {lean} : List (String × String × List String) := "
+            + lst(f"({q(a)}, {q(b)}, [{', '.join(q(x) for x in c)}])" for a, b, c in sites[name]))
+    return out
+
+
 def main(out_path: str):
     from pyxform import aliases, constants
     from pyxform import question_type_dictionary as qtd
@@ -514,6 +562,7 @@ def main(out_path: str):
         parts.append(dict_ss("c06Literals", _c06_literals(), "C06: literals of insert_output_values / _var_repl_* / instance_expression (Model/Channel.lean)"))
     except Exception as e:  # noqa: BLE001
         raise SystemExit(f"translator: cannot read the C06 literals: {e}")
+    parts += c03_sites()
     parts.append("end Pyxv.Gen\n")
     # several slices may ask for the same table: keep the first definition of each name
     seen, uniq = set(), []
